@@ -125,6 +125,7 @@ struct OpEnumerator
             add(base, T_GROUP, G_RESIZE, (int)gi, hend, gl + ".resize(same)", cnt);
             add(base, T_GROUP, G_CLEAR, (int)gi, hend, gl + ".clear");
             add(base, T_GROUP, G_FILL_HEADER, (int)gi, hend, gl + ".fill_group_header", cnt);
+            add(base, T_GROUP, G_RESIZE_THEN_LAST, (int)gi, ~0ULL, gl + ".resize(count+1) then the new last entry");
             add(base, T_GROUP, G_SIZE_BYTES, (int)gi, g.end, gl + ".size_bytes");
             add(base, T_GROUP, G_ITER, (int)gi, g.end, gl + ".iterate");
             if(gs.flat) add(base, T_GROUP, G_ITER_INDEXED, (int)gi, g.end, gl + ".iterator arithmetic");
@@ -181,6 +182,7 @@ struct OpEnumerator
             add(base, T_DATA, D_RESIZE, (int)di, dend, dl + ".resize(same)", len);
             add(base, T_DATA, D_CLEAR, (int)di, dend, dl + ".clear");
             add(base, T_DATA, D_ASSIGN_STRING, (int)di, dend, dl + ".assign_string", std::min<u64>(len, 5));
+            add(base, T_DATA, D_ASSIGN_STRING_LONG, (int)di, pend + 40, dl + ".assign_string(40 chars)");
             if(len)
             {
                 add(base, T_DATA, D_INDEX, (int)di, dend, dl + "[0]", 0);
